@@ -15,8 +15,6 @@ def fixClass (n r : Nat) (sat : Bool) (op : String) (a b : Nat) : String :=
   -- D11: Saturate division is a stub that returns the left operand
   if op == "div" && sat then
     (if FixpntSpec.div n r true a b != a then "fixpnt.div.saturate_unimplemented" else "")
-  -- Modulo negation of maxneg returns maxpos (operator- flips it), the ring value is maxneg itself
-  else if op == "neg" && !sat && a == 2 ^ (n - 1) then "fixpnt.neg.modulo_maxneg"
   else ""
 
 def fixpntHandler : Handler := fun lhs rhs => do
@@ -61,14 +59,14 @@ def fixpntHandler : Handler := fun lhs rhs => do
     | "div" =>
       if b == 0 then throw "division by zero is outside the property"
       let q := FixpntSpec.divExact n r a b
-      let ms := match Fixpnt.div w n r sat (lim a) (lim b) with | some l => hexL l | none => "trap"
+      let ms := hexL (Fixpnt.div w n r sat (lim a) (lim b))
       return judge ms (FixpntSpec.div n r sat a b) s!"div/{roundTag q}/{clampTag (rne q)}" (fixClass n r sat op a b)
     | _ => throw s!"unknown op {op}"
   | _, [as] =>
     let some a := parseHex as | throw "a"
     let x := FixpntSpec.val n a
     match op with
-    | "neg" => return judge (hexL (Fixpnt.neg w n (lim a))) (FixpntSpec.neg n sat a) s!"neg/{clampTag (-x)}" (fixClass n r sat op a 0)
+    | "neg" => return judge (hexL (Fixpnt.neg w n sat (lim a))) (FixpntSpec.neg n sat a) s!"neg/{clampTag (-x)}" ""
     | "inc" => return judge (hexL (Fixpnt.inc w n sat (lim a))) (FixpntSpec.inc n sat a) s!"inc/{clampTag (x + 1)}" ""
     | "dec" => return judge (hexL (Fixpnt.dec w n sat (lim a))) (FixpntSpec.dec n sat a) s!"dec/{clampTag (x - 1)}" ""
     | _ => throw s!"unknown op {op}"
